@@ -303,6 +303,8 @@ func runC11(p *P, r *R) {
 	c11LockOrder(p, r)
 	c11DispatcherWaits(p, r)
 	c11LocksReleased(p, r)
+	// the callback goroutine leaves the wait group before it finishes a deferred close, which waits on that group (shared with C20 R20.4)
+	borrow(p, r, "C20", runC20, map[string]string{"R20.4": "R11.15"}, nil)
 	// a read blocked for more data is woken by every arrival (shared with C20 R20.1)
 	arrivalWakesReaders(p, r, "R11.10")
 	// the writer parked after EAGAIN is released by every EPOLLOUT edge (shared with C18 R18.7)
